@@ -221,6 +221,18 @@ pub fn fit_one_class<F: Float + num_traits::ToPrimitive>(
     solver.solve()
 }
 
+/// Each class has to carry a total weight of `nu * l / 2` with at most one per sample: a nu that
+/// asks for more than the smaller class has samples admits no feasible starting point (the excess
+/// would silently be dropped and the equality constraint of the dual would not hold)
+fn check_nu_feasible<F: Float>(nu: F, targets: &[bool]) -> Result<()> {
+    let n_pos = targets.iter().filter(|x| **x).count();
+    let n_neg = targets.len() - n_pos;
+    if nu * F::cast(targets.len()) / F::cast(2.0) > F::cast(n_pos.min(n_neg)) {
+        return Err(SvmError::InvalidNu(nu.to_f32().unwrap()));
+    }
+    Ok(())
+}
+
 /// Fit binary classification problem
 ///
 /// For a given dataset with kernel matrix as records and two class problem as targets this fits
@@ -245,13 +257,16 @@ macro_rules! impl_classification {
                         c_p,
                         c_n,
                     ),
-                    (None, Some((nu, _))) => fit_nu(
-                        self.solver_params().clone(),
-                        dataset.records().view(),
-                        kernel,
-                        target,
-                        nu,
-                    ),
+                    (None, Some((nu, _))) => {
+                        check_nu_feasible(nu, target)?;
+                        fit_nu(
+                            self.solver_params().clone(),
+                            dataset.records().view(),
+                            kernel,
+                            target,
+                            nu,
+                        )
+                    }
                     _ => panic!("Set either C value or Nu value"),
                 };
 
@@ -276,13 +291,16 @@ macro_rules! impl_classification {
                         c_p,
                         c_n,
                     ),
-                    (None, Some((nu, _))) => fit_nu(
-                        self.solver_params().clone(),
-                        dataset.records().view(),
-                        kernel,
-                        target,
-                        nu,
-                    ),
+                    (None, Some((nu, _))) => {
+                        check_nu_feasible(nu, target)?;
+                        fit_nu(
+                            self.solver_params().clone(),
+                            dataset.records().view(),
+                            kernel,
+                            target,
+                            nu,
+                        )
+                    }
                     _ => panic!("Set either C value or Nu value"),
                 };
 
